@@ -24,7 +24,43 @@ enum TState {
     Finished,
 }
 
+/// PCT-style schedule (Burckhardt et al., "A randomized scheduler with
+/// probabilistic guarantees of finding bugs"): every thread has a priority,
+/// the runnable thread with the highest priority runs until it blocks or
+/// finishes; at each of the `changes` step numbers the thread running at that
+/// moment drops below everybody else. A bug that needs d-1 preemptions at
+/// particular places is found with d-1 change points, and between them one
+/// thread runs for as long as it can (which a per-point random choice almost
+/// never does).
+#[derive(Clone, Debug, Default, PartialEq, Eq, serde::Serialize, serde::Deserialize)]
+pub struct Pct {
+    /// Seed of the initial priority order of the threads.
+    pub order: u16,
+    /// Step numbers (scheduling points since the start) at which the running
+    /// thread's priority is lowered.
+    pub changes: Vec<u16>,
+}
+
+/// How the next thread is chosen at a scheduling point.
+#[derive(Clone, Debug)]
+pub enum Policy {
+    /// One uniform choice among the runnable threads per point from the tape,
+    /// round-robin once it is used up.
+    Tape(Vec<u16>),
+    Pct(Pct),
+}
+
+/// A thread that ran this many points in a row while others were runnable
+/// is demoted as if a change point had been placed there (a thread spinning
+/// on a condition only another thread can establish must not starve it).
+const PCT_FAIRNESS: usize = 400;
+
 struct State {
+    /// PCT: priority per thread (higher runs first); empty in tape mode.
+    prio: Vec<i64>,
+    changes: Vec<usize>,
+    next_low: i64,
+    run_len: usize,
     threads: Vec<TState>,
     current: usize,
     tape: Vec<u16>,
@@ -103,6 +139,13 @@ impl State {
         if runnable.is_empty() {
             return None;
         }
+        if !self.prio.is_empty() {
+            // Highest priority first; a thread spinning on a held mutex only
+            // if nobody else can run.
+            let calm: Vec<usize> = runnable.iter().copied().filter(|t| !self.spinning[*t]).collect();
+            let cands = if calm.is_empty() { &runnable } else { &calm };
+            return cands.iter().copied().max_by_key(|t| self.prio[*t]);
+        }
         let choice = if self.pos < self.tape.len() {
             let t = self.tape[self.pos];
             self.pos += 1;
@@ -150,6 +193,15 @@ pub fn yield_point(kind: Kind, addr: usize) {
     }
     let blocked = matches!(kind, Kind::A10(a10::verif::Point::LockBlocked));
     st.spinning[tid] = blocked;
+    if !st.prio.is_empty() {
+        st.run_len += 1;
+        let change = st.changes.contains(&st.steps);
+        if change || st.run_len > PCT_FAIRNESS {
+            st.prio[tid] = st.next_low;
+            st.next_low -= 1;
+            st.run_len = 0;
+        }
+    }
     let next = st.pick(if blocked { Some(tid) } else { None });
     match next {
         None => {
@@ -163,6 +215,7 @@ pub fn yield_point(kind: Kind, addr: usize) {
         Some(n) if n == tid => {}
         Some(n) => {
             st.switches += 1;
+            st.run_len = 0;
             if interesting(kind) {
                 st.interesting_switches += 1;
             }
@@ -258,12 +311,47 @@ fn block_fn(fd: i32) -> crate::sim::WaitOutcome {
 
 /// Run `threads` under the scheduler with the given choice tape.
 pub fn run(tape: Vec<u16>, budget: usize, record: bool, threads: Vec<Box<dyn FnOnce() + Send>>) -> Outcome {
+    run_policy(Policy::Tape(tape), budget, record, threads)
+}
+
+/// `pct` if given, else the tape.
+pub fn run_either(pct: &Option<Pct>, tape: &[u16], budget: usize, record: bool, threads: Vec<Box<dyn FnOnce() + Send>>) -> Outcome {
+    match pct {
+        Some(p) => run_policy(Policy::Pct(p.clone()), budget, record, threads),
+        None => run_policy(Policy::Tape(tape.to_vec()), budget, record, threads),
+    }
+}
+
+/// Initial PCT priorities: a permutation of n..=1 selected by `order`
+/// (factorial number system), thread ids in generation order.
+fn pct_priorities(n: usize, order: u16) -> Vec<i64> {
+    let mut left: Vec<i64> = (1..=n as i64).rev().collect();
+    let mut code = order as usize;
+    let mut out = Vec::with_capacity(n);
+    for k in (1..=n).rev() {
+        out.push(left.remove(code % k));
+        code /= k;
+    }
+    out
+}
+
+/// Run `threads` under the scheduler with the given policy.
+pub fn run_policy(policy: Policy, budget: usize, record: bool, threads: Vec<Box<dyn FnOnce() + Send>>) -> Outcome {
     let n = threads.len();
+    let (tape, prio, changes) = match policy {
+        Policy::Tape(t) => (t, Vec::new(), Vec::new()),
+        Policy::Pct(p) => (Vec::new(), pct_priorities(n, p.order), p.changes.iter().map(|c| *c as usize).collect()),
+    };
+    let first = if prio.is_empty() { 0 } else { (0..n).max_by_key(|t| prio[*t]).unwrap_or(0) };
     {
         let mut guard = lock();
         *guard = Some(State {
+            prio,
+            changes,
+            next_low: 0,
+            run_len: 0,
             threads: vec![TState::Runnable; n],
-            current: 0,
+            current: first,
             tape,
             pos: 0,
             steps: 0,
@@ -332,6 +420,9 @@ pub fn run(tape: Vec<u16>, budget: usize, record: bool, threads: Vec<Box<dyn FnO
     a10::verif::install_point(None);
     crate::sim::set_block_fn(None);
     let st = lock().take().unwrap();
+    if std::env::var_os("A10VERIF_SCHED_STATS").is_some() {
+        eprintln!("SCHED pct={} steps={} switches={} stuck={} over={}", !st.prio.is_empty(), st.steps, st.switches, st.stuck, st.over_budget);
+    }
     Outcome {
         stuck: st.stuck,
         over_budget: st.over_budget,
